@@ -67,6 +67,7 @@ def analyze(scenario, log):
     buf_got = [0 for _ in objs["buf"]]
     timers = collections.defaultdict(list)   # pid -> list of dict(due, sig, alive)
     notif = collections.defaultdict(list)    # pid -> list of (time, sig, kind)
+    intr_used = set()                         # (pid, index into notif[pid]) of interrupts already matched to a return
     dump = {}
     hist = {}
     now_final = None
@@ -266,9 +267,18 @@ def analyze(scenario, log):
             if val != 0 and op in BLOCKING:
                 # an interrupt clears the timers of the process; a fired timer is consumed
                 fired = [tm for tm in timers[pid] if tm["due"] == t and tm["sig"] == val]
-                intr_match = any(tt == t and kind == "intr" and s == val for (tt, s, kind) in notif[pid])
-                if intr_match or val == -1:
-                    timers[pid] = []          # an interrupt / preemption clears every timer of the process
+                intrs = [ix for ix, (tt, s, kind) in enumerate(notif[pid])
+                         if tt == t and kind == "intr" and s == val and (pid, ix) not in intr_used]
+                if val == -1:
+                    timers[pid] = []          # a preemption clears every timer of the process
+                elif intrs and fired:
+                    # an interrupt and a timer with this value are both due now: which one this return consumed is not
+                    # determined by the log (an interrupt would have cleared the timers): keep both explanations open
+                    for tm in timers[pid]:
+                        tm["sure"] = False
+                elif intrs:
+                    intr_used.add((pid, intrs[0]))    # one interrupt explains one return
+                    timers[pid] = []          # an interrupt clears every timer of the process
                 elif fired:
                     timers[pid].remove(fired[0])
                 else:
